@@ -5,8 +5,8 @@ From UPF Require Import Model.Locks Gen.Locks_gen.
 Import ListNotations.
 Local Open Scope string_scope.
 
-(* the fields of F22: plain Go maps of the UP4 plug-in *)
-Definition f22_fields : list string := ["UP4.fseidToUEAddr"; "UP4.meters"; "UP4.ueAddrToFSEID"].
+(* the plain Go maps of the UP4 plug-in (F22, repaired by UP4.sessionStateMu) *)
+Definition session_state_fields : list string := ["UP4.fseidToUEAddr"; "UP4.meters"; "UP4.ueAddrToFSEID"].
 (* fields that UP4.tryConnect re-creates (under tryConnectMu only) when the datapath connection was lost *)
 Definition reconnect_fields : list string :=
   ["UP4.appMeterCellIDsPool"; "UP4.endMarkerChan"; "UP4.p4RtTranslator"; "UP4.p4client";
@@ -16,7 +16,8 @@ Definition bess_table : list access := request_fields_of bess_owners tbl.
 Definition pool_table : list access := request_fields_of pool_owners tbl.
 Definition up4_table : list access := request_fields_of up4_owners tbl.
 Definition up4_run_table : list access := without_reinit up4_table.
-Definition up4_guarded_table : list access := filter (fun a => negb (mem_s (a_field a) f22_fields)) up4_run_table.
+(* the rows of the three maps: all of them hold this lock *)
+Definition session_state_rows : list access := filter (fun a => mem_s (a_field a) session_state_fields) up4_run_table.
 
 Definition has_conflict (t : list access) : bool := existsb (fun a1 => existsb (conflict a1) t) t.
 Definition has_field (t : list access) (f : string) : bool := existsb (fun a => String.eqb (a_field a) f) t.
